@@ -140,6 +140,61 @@ MACRO_TEXTS = [
 ]
 
 
+# programs whose failing form raises by itself (operator / subscript / call protocol), not through an effect site:
+# (name, text, exception class name, (first line, last line) of the raising form)
+OP_TEXTS = [
+    ("augassign-multi", '(setv total 5)\n(setv pad 0)\n(-= total\n  1\n  "a")', "TypeError", (3, 5)),
+    ("augassign-multi-fn", '(defn f [acc]\n  (setv pad 0)\n  (+= acc\n    [1]\n    None)\n  acc)\n(f [])', "TypeError", (3, 5)),
+    ("augassign-single", '(setv total 5)\n\n(-= total\n  "a")', "TypeError", (3, 4)),
+    ("binop-nested", '(setv a 1)\n(setv b\n  (+ a\n    (* 2\n      None)))', "TypeError", (4, 5)),
+    ("compare-chain", '(setv a 1)\n(print\n  (< a\n    2\n    "x"))', "TypeError", (3, 5)),
+    ("subscript", '(setv xs [1])\n(setv y\n  (get xs\n    5))', "IndexError", (3, 4)),
+    ("cut", '(setv xs 5)\n\n(cut xs\n  1)', "TypeError", (3, 4)),
+    ("attr", '(setv o 1)\n\n\n(. o\n  nope)', "AttributeError", (4, 5)),
+    ("call-noncallable", '(setv f 1)\n\n(f\n  2)', "TypeError", (3, 4)),
+    ("unpack", '(setv v 1)\n(setv [a b]\n  v)', "TypeError", (2, 3)),
+    ("star-arg", '(setv v 1)\n\n(print\n  #* v)', "TypeError", (3, 4)),
+    ("fstring-format", '(setv v "s")\n\n(setv t f"{v\n :d}")', "ValueError", (3, 4)),
+    ("unary", '(setv v "s")\n\n\n(-\n  v)', "TypeError", (4, 5)),
+    ("in-lifted", '(setv v None)\n(print\n  (if v\n    1\n    (do (setv q 1)\n      (+ q\n         v))))', "TypeError", (6, 7)),
+    ("assert", '(setv v 0)\n\n(assert v\n  "msg")', "AssertionError", (3, 4)),
+    ("raise-form", '(setv v 0)\n\n\n(raise\n  (ValueError v))', "ValueError", (4, 5)),
+    ("import", '(setv v 0)\n\n(import\n  no_such_module_vf)', "ModuleNotFoundError", (3, 4)),
+    ("with-enter", '(setv v 0)\n\n(with [v]\n  1)', "TypeError", (3, 4)),
+    ("for-iter", '(setv v 0)\n\n(for [x\n       v]\n  1)', "TypeError", (3, 5)),
+    ("lfor-iter", '(setv v 0)\n(setv r\n  (lfor x\n    v\n    x))', "TypeError", (3, 5)),
+    ("kwarg-dup", '(defn f [a] a)\n\n(f 1\n  :a 2)', "TypeError", (3, 4)),
+    ("setattr", '(setv o 1)\n\n(setv o.x\n  2)', "AttributeError", (3, 4)),
+    ("del", '(setv d {})\n\n(del\n  (get d 1))', "KeyError", (3, 4)),
+    ("match-class", '(setv v 0)\n\n(match v\n  (v 1) 2)', "TypeError", (3, 4)),
+]
+
+
+def op_line_ok(text, exc_name, span, crlf):
+    """Concrete: compile, run, and look at the innermost frame of the program's file in the traceback."""
+    import traceback
+
+    src = text.replace("\n", "\r\n") if crlf else text
+    fname = "<c17_op>"
+    prog = skel.compile_prog(src, filename=fname)
+    if prog[0] != "ok":
+        return False, "rejected: %r" % (prog[1:3],)
+    g = {}
+    try:
+        skel.run_code(prog, g)
+    except Exception as e:
+        if type(e).__name__ != exc_name:
+            return False, "raised %s instead of %s" % (type(e).__name__, exc_name)
+        mine = [fs for fs in traceback.extract_tb(e.__traceback__) if fs.filename == fname]
+        if not mine:
+            return False, "no frame of the program in the traceback"
+        ln = mine[-1].lineno
+        if not (span[0] <= ln <= span[1]):
+            return False, "traceback line %d, raising form spans lines %d-%d" % (ln, span[0], span[1])
+        return True, ""
+    return False, "did not raise"
+
+
 def skeletons(tier):
     out = []
     for i, (name, sk) in enumerate(gen.depth1(fillers=["pe", "sx", "st", "sw", "sn", "sf"])):
@@ -196,10 +251,15 @@ def spec(tier, seed):
         text = render_ml(sk)
         fn = "h%d" % n
         n += 1
-        src, ns = harness(fn, text, sk)
+        crlf = (n % 7 == 0)
+        if crlf:
+            # the same program with Windows line endings: line numbers must not change
+            spans_lf = site_spans(text)
+            text = text.replace("\n", "\r\n")
+        src, ns = harness(fn, text, sk, span_override=spans_lf if crlf else None)
         if ns == 0:
             continue
-        obs.append(Ob(fn, src, sample=name + "\n" + text, group=name.split("[")[0].split("@")[0].split("<")[0]))
+        obs.append(Ob(fn, src, sample=name + (" [CRLF]" if crlf else "") + "\n" + text, group=name.split("[")[0].split("@")[0].split("<")[0]))
     for name, text, *over in MACRO_TEXTS:
         fn = "h%d" % n
         n += 1
@@ -208,9 +268,21 @@ def spec(tier, seed):
         obs.append(Ob(fn, src, sample=name + "\n" + text, group="macros-and-layout"))
     tw, _ = harness("twin0", render_ml(("if", ("E", 0, "v0"), ("E", 1, "v1"), ("E", 2, "v2"))), ("if", "v0", "v1", "v2"), twin=True)
     obs.append(Ob("twin0", tw, twin=True, group="twin"))
+    def extra(tier_, seed_, workdir):
+        recs = []
+        for name, text, exc, span in OP_TEXTS:
+            for crlf in (False, True):
+                ok, detail = op_line_ok(text, exc, span, crlf)
+                recs.append({"name": "op:%s%s" % (name, "/crlf" if crlf else ""), "verdict": "CONFIRMED" if ok else "POST_FAIL", "reproduces": None if ok else True,
+                             "sample": "%s%s: %s raises %s in lines %d-%d" % (name, " [CRLF]" if crlf else "", text.replace("\n", " / "), exc, span[0], span[1]),
+                             "cex": {"args": [], "kwargs": {}}, "replay_detail": detail, "paths": 1, "queries": 0, "solver_s": 0.0,
+                             "group": "operator-raised", "twin": False})
+        return recs
+
     return {
         "preamble": PREAMBLE,
         "obligations": obs,
+        "extra": extra,
         "level": "fault_enumeration",
         "timeout": 90.0,
         "path_timeout": 30.0,
@@ -225,7 +297,7 @@ def spec(tier, seed):
                   "plus %d hand-written multi-line programs (user macros, when/cond, multi-line strings, comments, classes, decorators, defaults, f-strings); "
                   "symbolic: the raising site k over every effect site, truthiness/ints/lists that make it reachable"
                   % ("every 3rd" if tier == "quick" else "all", "every 3rd" if tier == "quick" else "all", len(MACRO_TEXTS)),
-        "outside": "exceptions raised by operators/builtins rather than by a call form (no site identity); column numbers; code built at run time from model constructors (documented fallback to line 1)",
+        "outside": "exceptions raised by operators/builtins are covered only by the %d concrete hand-written programs of group operator-raised (LF and CRLF), not symbolically; column numbers;" % len(OP_TEXTS) + " code built at run time from model constructors (documented fallback to line 1)",
         "stubs": ["crosshair.util.getsourcelines wrapper for .hy-defined callees"],
         "assumptions": ["line spans come from an independent bracket-matching line counter over the rendered text (checks/C17.py site_spans), not from the reader",
                         "the observed line is that of the innermost frame of the compiled file at the moment the site raises, and of the last traceback entry of that file when the exception escapes"],
